@@ -196,7 +196,7 @@ func contractPhase(cr *checkResult, w *symex.World, update bool) {
 			}
 		}
 	}
-	timeout := 6000
+	timeout := 10000
 	if cr.tier == "thorough" {
 		timeout = 30000
 	}
